@@ -89,6 +89,15 @@ def check(rep, ctx):
                           file=ctx.sm.require(codec.module).rel if ctx.sm.get(codec.module) else "", line=codec.node.lineno)
             rep.count(R_X, st["fault_paths"], instance=f"fault-paths-{direction}")
             rep.extra[f"fault_injection_{direction}"] = st
+    R_MK = rep.rule("C19-memo-keys", "memoised functions are keyed only by values whose equality implies identical behaviour "
+                    "(type objects, bools, literals)", floor=2,
+                    necessary_because="functools caches are keyed by == and hash: 1 == 1.0 == True, and datetimes differing only in fold "
+                                      "compare equal -- the second caller gets the first caller's result")
+    for m in scan.memoised_functions(ctx, SERIAL_MODULES + ["kio.records.readers", "kio.records.writers", "kio.index"]):
+        rep.check(R_MK, not m["bad_params"], construct=f"{m['module']}:{m['function']}", stmt=m["stmt"],
+                  message=f"memoised on parameters {m['bad_params']}: equal-but-different arguments (1/1.0/True, datetimes differing in fold, "
+                          f"equal instances of different classes) share one cached result, so the outcome depends on call history",
+                  file=m["file"], line=m["line"])
     rep.sample({"rule": "C19-captured", "mutations_seen": [e for e in eng["effects"] if e[1] == "mutate"][:5]})
     rep.extra.update(modules=SERIAL_MODULES)
     rep.trusted_base += ["functools.cache does not memoise exceptions and stores a result only after the call returns"]
